@@ -730,6 +730,9 @@ func (n *network) connect(name gen.Atom, route gen.NetworkRoute) (gen.Connection
 	} else {
 		dial = dialer.Dial
 	}
+	if vd := lib.VerifDialer(); vd != nil {
+		dial = vd
+	}
 	dsn := net.JoinHostPort(route.Route.Host, strconv.Itoa(int(route.Route.Port)))
 	conn, err := dial("tcp", dsn)
 	if err != nil {
@@ -1104,7 +1107,19 @@ func (n *network) startAcceptor(a gen.AcceptorOptions) (*acceptor, error) {
 		acceptor.atom_mapping[k] = v
 	}
 
+	if vl := lib.VerifListener(); vl != nil {
+		vlcl, err := vl(a.TCP, net.JoinHostPort(a.Host, strconv.Itoa(int(pstart))))
+		if err != nil {
+			return nil, err
+		}
+		acceptor.port = pstart
+		acceptor.l = vlcl
+	}
+
 	for i := pstart; i < pend+1; i++ {
+		if acceptor.l != nil {
+			break
+		}
 		hp := net.JoinHostPort(a.Host, strconv.Itoa(int(i)))
 		lcl, err := lc.Listen(context.Background(), a.TCP, hp)
 		if err != nil {
